@@ -206,6 +206,12 @@ theorem equiv_of_map (hc : ∀ x, Good x → StepCorr L₁ L₂ φ Good x) (a : 
   ⟨sim_of_rel L₁ L₂ _ (mapRel_matches_left hc) a b hr,
    sim_of_rel L₂ L₁ _ (fun b a h => mapRel_matches_right hc b a h) b a hr⟩
 
+theorem MapRel.step_left {a a' : L₁.σ} {b : L₂.σ} (h : L₁.step a = .silent a')
+    (r : MapRel L₁ L₂ φ Good a' b) : MapRel L₁ L₂ φ Good a b := by
+  rcases r with ⟨x, hg, ha, hb⟩ | ⟨e, a₀, b₀, ha, hae, hb, hbe⟩
+  · exact .inl ⟨x, hg, .step h ha, hb⟩
+  · exact .inr ⟨e, a₀, b₀, .step h ha, hae, hb, hbe⟩
+
 theorem MapRel.good {x : L₁.σ} (h : Good x) : MapRel L₁ L₂ φ Good x (φ x) :=
   .inl ⟨x, h, .refl x, .refl (φ x)⟩
 
